@@ -156,6 +156,11 @@ def FirstIsFinal (pat body : List Nat) : Prop :=
 instance (pat body : List Nat) : Decidable (FirstIsFinal pat body) := by
   unfold FirstIsFinal; exact Nat.decidableBallLT _ _
 
+/-- the node classes whose text the property wants reproduced exactly: the verbatim environments, `\verb`, and the
+    mathematics environments -/
+def noSubstitutionClasses : List String :=
+  ["verb", "verbatim", "verbatim*", "math", "displaymath", "equation", "eqnarray", "eqnarray*"]
+
 /-- the closing delimiter of `\verb`: the delimiter itself (plasTeX pairs `{` with `}`) -/
 def closing (d : Nat) : Nat := if d = 123 then 125 else d
 
